@@ -181,3 +181,44 @@ def fd_retry():
                 H.shutdown(proto, conn)
     return {"obligations": [{"name": "retry-continues", "ok": not fails, "witness": fails[0]["witness"] if fails else None, "detail": fails[0]["detail"] if fails else ""}],
             "domain": "2 roles x 5 consecutive unanswered attempts", "size": 10, "exhaustive": True, "samples": [{"rounds": 5}]}
+
+
+@fd("C07", "state-machine-contracts")
+def fd_state_machine_contracts():
+    """The assumed call-site contracts of CommunicationStateMachine.s1f13received / s1f14received / communicationreqfail
+    (contracts/C07_comm.py) against the real machine (inside a real handler, so that its enter handlers run) from every
+    reachable state: WrongSourceStateError and no change outside the contract's sources, else the contract's target."""
+    from contracts import C07_comm as K
+    from secsgem.common.state_machine import WrongSourceStateError
+    obs = []
+    total = 0
+    with H.virtual_timers():
+        for ccls in K.SM_CONTRACTS:
+            bad = None
+            for kind in ("host", "equipment"):
+                for state in STATES:
+                    total += 1
+                    handler, proto, conn, _ = reach(kind, state)
+                    try:
+                        m = handler.communication_state
+                        before = m.current
+                        want_raise = bool(ccls.raises(m)[WrongSourceStateError])
+                        try:
+                            getattr(m, ccls.sm_name)()
+                            raised = False
+                        except WrongSourceStateError:
+                            raised = True
+                        want_state = before if want_raise else ccls.sm_target
+                        if raised != want_raise or m.current is not want_state:
+                            bad = {"transition": ccls.sm_name, "role": kind, "from": before.name, "raised": raised, "contract_raises": want_raise,
+                                   "state": m.current.name, "contract_state": want_state.name}
+                    finally:
+                        H.shutdown(proto, conn)
+                    if bad:
+                        break
+                if bad:
+                    break
+            obs.append({"name": f"{ccls.sm_name}.contract-matches-real-machine", "ok": bad is None, "witness": bad,
+                        "detail": "the assumed contract of the transition differs from the real CommunicationStateMachine"})
+    return {"obligations": obs, "domain": "3 transitions x 2 roles x {NOT_COMMUNICATING, WAIT_CRA, WAIT_DELAY, COMMUNICATING} on real handlers",
+            "size": total, "exhaustive": True, "samples": [{"transition": "s1f14received", "from": "WAIT_CRA", "to": "COMMUNICATING"}]}
